@@ -184,6 +184,57 @@ def parse_script(text):
             cur.lines.append(ln)
     return cases, None
 
+def shrink_case(c, project, variant='asan', env=None, budget=120):
+    """delta-debugging on the script lines: the smallest prefix-closed subsequence on which implementation and model still disagree
+    (or the implementation still reports an anomaly). Used only to make a replay short; never decides anything."""
+    def signature(lines):
+        """None when implementation and model agree; else (anomaly class or '', tag of the first differing observation)"""
+        if not lines:
+            return None
+        cc = Case('shrink', lines, c.meta)
+        try:
+            il = run_harness([cc], variant=variant, env=env, tag='shr').get('shrink', ['MISSING'])
+            ml = run_model([cc], tag='shr').get('shrink', ['MISSING'])
+        except Exception:
+            return None
+        an = [l for l in il if l.startswith(ANOMALY)]
+        if an:
+            m = re.search(r'(heap-buffer-overflow|use-after-free|SEGV|stack-buffer-overflow|runtime error|TIMEOUT|leak)', an[0])
+            return (m.group(1) if m else an[0].split()[0], '')
+        try:
+            a, b = project(cc, il), project(cc, ml)
+        except Exception:
+            a, b = il, ml
+        if a == b:
+            return None
+        k = next((i for i, (x, y) in enumerate(zip(a, b)) if x != y), min(len(a), len(b)))
+        x = a[k] if k < len(a) else (b[k] if k < len(b) else '')
+        return ('', str(x).split()[0] if str(x).split() else '')
+    orig = signature(list(c.lines))
+    def differs(lines):
+        # the SAME kind of failure must remain: same anomaly class, or (no anomaly and) the same kind of observation differs
+        return orig is not None and signature(lines) == orig
+    lines = list(c.lines)
+    if not differs(lines):
+        return None
+    n = 2
+    while len(lines) >= 2 and budget > 0:
+        chunk = max(1, len(lines) // n)
+        removed = False
+        for i in range(0, len(lines), chunk):
+            cand = lines[:i] + lines[i + chunk:]
+            budget -= 1
+            if cand and differs(cand):
+                lines = cand; n = max(n - 1, 2); removed = True
+                break
+            if budget <= 0:
+                break
+        if not removed:
+            if chunk == 1:
+                break
+            n = min(len(lines), n * 2)
+    return lines
+
 def correspondence(res, cases, project, judge, what, stats=None, variant='asan', env=None, model=None, impl=None):
     """runs cases on implementation and model; projected transcripts must agree; judge decides whether the property fails"""
     if impl is None:
@@ -200,7 +251,9 @@ def correspondence(res, cases, project, judge, what, stats=None, variant='asan',
         if j:
             njudge += 1
             if njudge <= 3:
-                res.violation('%s: %s (case %s)' % (what, j, c.cid), c.text() + '# implementation transcript:\n' + '\n'.join('# ' + l[:400] for l in il[:40]) + '\n', True, 'judge')
+                small = shrink_case(c, project, variant, env) if njudge == 1 else None
+                extra = ('# minimised script on which implementation and model still disagree (%d of %d lines):\nCASE minimised\n%s\n' % (len(small), len(c.lines), '\n'.join(small))) if small and len(small) < len(c.lines) else ''
+                res.violation('%s: %s (case %s)' % (what, j, c.cid), c.text() + extra + '# implementation transcript:\n' + '\n'.join('# ' + l[:400] for l in il[:40]) + '\n', True, 'judge')
             continue
         a, b = project(c, il), project(c, ml)
         if a != b:
@@ -210,8 +263,10 @@ def correspondence(res, cases, project, judge, what, stats=None, variant='asan',
     if first_diff and njudge == 0:
         c, a, b = first_diff
         k = next((i for i, (x, y) in enumerate(zip(a, b)) if x != y), min(len(a), len(b)))
+        small = shrink_case(c, project, variant, env)
+        extra = ('# minimised script on which implementation and model still disagree (%d of %d lines):\nCASE minimised\n%s\n' % (len(small), len(c.lines), '\n'.join(small))) if small and len(small) < len(c.lines) else ''
         res.violation('%s: correspondence model/implementation broken on %d case(s); first at case %s, observation %d:\n impl : %r\n model: %r\nthe property judge did not fail on any generated input' % (
-            what, ndiff, c.cid, k, a[k] if k < len(a) else None, b[k] if k < len(b) else None), c.text(), False, 'correspondence')
+            what, ndiff, c.cid, k, a[k] if k < len(a) else None, b[k] if k < len(b) else None), c.text() + extra, False, 'correspondence')
     res.cov['evaluations'] += len(cases)
     res.cov.setdefault('correspondence_diffs', 0)
     res.cov['correspondence_diffs'] += ndiff
